@@ -1967,11 +1967,18 @@ theorem away_struct {nm : String} {g1 g2 : Grammar}
 
 theorem RuleRel.flip_away {nm : String} {a b : Option Rule} (h : RuleRel (Away nm) a b) :
     RuleRel (Away nm) b a := by
-  cases a <;> cases b <;> simp_all [RuleRel, Away]
+  cases a with
+  | none => cases b <;> simp_all [RuleRel]
+  | some ra =>
+    cases b with
+    | none => exact h.elim
+    | some rb =>
+      obtain ⟨h1, h2, h3, h4⟩ := h
+      exact ⟨h1.symm, h2.symm, h3.symm, by rw [← h3]; exact h4⟩
 
 /-- (6a) adding a rule that nobody references changes nothing for expressions that do not
     mention it -/
-theorem addRule_away {rl : Rule} (hfresh : g.lookup rl.name = none) (hu : Unreferenced g rl.name)
+theorem addRule_away {rl : Rule} (hu : Unreferenced g rl.name)
     (h1 : rl.name ≠ "WHITESPACE") (h2 : rl.name ≠ "COMMENT") (h3 : rl.name ≠ "SKIP")
     {x : Expr} (hx : mentions rl.name x = false) (s : S0) (r : R0) :
     Conv (addRule g rl) inp x s r ↔ Conv g inp x s r := by
@@ -1991,6 +1998,156 @@ theorem addRule_away {rl : Rule} (hfresh : g.lookup rl.name = none) (hu : Unrefe
       rintro a b ⟨rfl, ha⟩
       exact Or.inr ⟨a, away_struct hl ha, fun _ _ h => h⟩
     exact hS.conv ⟨rfl, hx⟩
+
+theorem silent_bits : hasBit SILENT SILENT = true ∧ hasBit SILENT ATOMIC = false ∧
+    hasBit SILENT COMPOUND = false ∧ hasBit SILENT NONATOMIC = false := by decide
+
+/-- (6b) **the fresh silent rule means what the extracted expression meant** -/
+theorem extract_silent {nm : String} {e : Expr} {kind : RuleKind}
+    (hfresh : g.lookup nm = none) (hu : Unreferenced g nm) (he : mentions nm e = false)
+    (h1 : nm ≠ "WHITESPACE") (h2 : nm ≠ "COMMENT") (h3 : nm ≠ "SKIP") (t : Option String)
+    (s : S0) (r : R0) :
+    Conv (addRule g ⟨nm, SILENT, e, kind⟩) inp (.ident nm t) s r ↔ Conv g inp e s r := by
+  have hl : (addRule g ⟨nm, SILENT, e, kind⟩).lookup nm = some ⟨nm, SILENT, e, kind⟩ :=
+    lookup_addRule_self (rl := ⟨nm, SILENT, e, kind⟩) hfresh
+  have hT : L1.isTriviaName nm = false := by simp [L1.isTriviaName, h1, h2]
+  rw [silent_rule_inline hl silent_bits.1 silent_bits.2.1 silent_bits.2.2.1 silent_bits.2.2.2 hT t s r]
+  exact addRule_away (rl := ⟨nm, SILENT, e, kind⟩) hu h1 h2 h3 he s r
+
+/-- (6a, whole parses) the other start rules parse as before -/
+theorem addRule_parse {rl : Rule} (hu : Unreferenced g rl.name)
+    (h1 : rl.name ≠ "WHITESPACE") (h2 : rl.name ≠ "COMMENT") (h3 : rl.name ≠ "SKIP")
+    {start : String} (hs : start ≠ rl.name) (k : Nat) (r : R0) :
+    ParseC (addRule g rl) inp start k r ↔ ParseC g inp start k r := by
+  rw [parseC_iff none, parseC_iff none]
+  exact addRule_away hu h1 h2 h3 (by simp [mentions, hs]) _ _
+
+/-- the rewrite "replace `e` by a reference to the silent rule `nm`" -/
+def RefTo (nm : String) (e : Expr) (x x' : Expr) : Prop := x = e ∧ ∃ t, x' = .ident nm t
+
+/-- (6, complete) **extraction**: add the fresh silent rule `nm = _{ e }` and replace any
+    occurrences of `e` in rule bodies (not in `nm`'s own body) by `nm`: every other start rule
+    parses as before. -/
+theorem extract_silent_grammar {nm : String} {e : Expr} {kind : RuleKind} {g2 : Grammar}
+    (hfresh : g.lookup nm = none) (hu : Unreferenced g nm)
+    (h1 : nm ≠ "WHITESPACE") (h2 : nm ≠ "COMMENT") (h3 : nm ≠ "SKIP")
+    (hG : GrammarRel (RefTo nm e) (addRule g ⟨nm, SILENT, e, kind⟩) g2)
+    (hnm : g2.lookup nm = some ⟨nm, SILENT, e, kind⟩)
+    {start : String} (hs : start ≠ nm) (k : Nat) (r : R0) :
+    ParseC g inp start k r ↔ ParseC g2 inp start k r := by
+  have hT : L1.isTriviaName nm = false := by simp [L1.isTriviaName, h1, h2]
+  have hl : (addRule g ⟨nm, SILENT, e, kind⟩).lookup nm = some ⟨nm, SILENT, e, kind⟩ :=
+    lookup_addRule_self (rl := ⟨nm, SILENT, e, kind⟩) hfresh
+  rw [← addRule_parse (rl := ⟨nm, SILENT, e, kind⟩) hu h1 h2 h3 hs k r]
+  apply cong_grammar_parse hG
+  · rintro x x' ⟨rfl, t, rfl⟩
+    exact (silent_rule_inline hl silent_bits.1 silent_bits.2.1 silent_bits.2.2.1 silent_bits.2.2.2 hT t).symm
+  · rintro x x' ⟨rfl, t, rfl⟩
+    exact (silent_rule_inline hnm silent_bits.1 silent_bits.2.1 silent_bits.2.2.1 silent_bits.2.2.2 hT t).symm
+
+/-! ### the rewrites of property C08 as one relation -/
+
+/-- the meaning-preserving rewrites, in both directions -/
+inductive Rewrite (inp : Input) : Expr → Expr → Prop
+  | paren (e : Expr) (t : Option String) : Rewrite inp e (.group e t)
+  | seqAssoc (as : List Expr) (b : Expr) (bs cs : List Expr) (t : Option String) :
+      Rewrite inp (.seq (as ++ (b :: bs) ++ cs)) (.seq (as ++ [.group (.seq (b :: bs)) t] ++ cs))
+  | choiceAssoc (as bs cs : List Expr) (t : Option String) :
+      Rewrite inp (.choice (as ++ bs ++ cs)) (.choice (as ++ [.group (.choice bs) t] ++ cs))
+  | dup (e : Expr) (t : Option String) : Rewrite inp e (.group (.choice [e, e]) t)
+  | neverSeq (e : Expr) (x : Str) (t1 t2 : Option String) : NeverAt inp x →
+      Rewrite inp e (.group (.choice [.group (.seq [e, .str x]) t1, e]) t2)
+  | neverNot (e : Expr) (x : Str) (t1 t2 : Option String) : NeverAt inp x →
+      Rewrite inp e (.group (.choice [.group (.seq [.notP e, .str x]) t1, e]) t2)
+  | symm {x x' : Expr} : Rewrite inp x x' → Rewrite inp x' x
+
+theorem Rewrite.sound (ht : TriviaTotal g inp) {x x' : Expr} (h : Rewrite inp x x') : EquivAt g inp x x' := by
+  induction h with
+  | paren e t => exact (group_id e t).symm
+  | seqAssoc as b bs cs t => exact (seq_assoc as b bs cs t).symm
+  | choiceAssoc as bs cs t => exact (choice_assoc as bs cs t).symm
+  | dup e t => exact (dup_choice e t).symm
+  | neverSeq e x t1 t2 hx => exact (never_seq e hx ht t1 t2).symm
+  | neverNot e x t1 t2 hx => exact (never_notpred e hx ht t1 t2).symm
+  | symm _ ih => exact ih.symm
+
+/-- any number of simultaneous rewrites at any depth of one expression -/
+theorem rewrites_preserve_expr (ht : TriviaTotal g inp) {x x' : Expr} (h : Cong (Rewrite inp) x x') :
+    EquivAt g inp x x' :=
+  cong_equiv (fun _ _ hb => hb.sound ht) h
+
+/-- any number of simultaneous rewrites at any depth of any rule bodies -/
+theorem rewrites_preserve_parse {g' : Grammar} (hG : GrammarRel (Rewrite inp) g g')
+    (ht : TriviaTotal g inp) (ht' : TriviaTotal g' inp) : GEquiv g g' inp :=
+  cong_grammar_parse hG (fun _ _ hb => hb.sound ht) (fun _ _ hb => hb.sound ht')
+
+theorem GEquiv.refl (g : Grammar) (inp : Input) : GEquiv g g inp := fun _ _ _ => Iff.rfl
+theorem GEquiv.symm {g g' : Grammar} (h : GEquiv g g' inp) : GEquiv g' g inp := fun a b c => (h a b c).symm
+theorem GEquiv.trans {g1 g2 g3 : Grammar} (h1 : GEquiv g1 g2 inp) (h2 : GEquiv g2 g3 inp) :
+    GEquiv g1 g3 inp := fun a b c => (h1 a b c).trans (h2 a b c)
+
+/-! ### when is implicit trivia total? -/
+
+/-- one attempt at the trivia rule `rl` answers from every state, and a successful attempt
+    consumes at least one character of the input -/
+def TryProgress (g : Grammar) (inp : Input) (rl : Option Rule) : Prop :=
+  ∀ s, ∃ t, TryC g inp rl s t ∧
+    (match t with
+     | .matched s' _ => s.pos < s'.pos ∧ s'.pos ≤ inp.size
+     | .no => True
+     | .stop _ => False)
+
+theorem skipLoop_total {ws cm : Option Rule} (hws : TryProgress g inp ws) (hcm : TryProgress g inp cm) :
+    ∀ (d : Nat) (s : S0) (acc : List Pair), inp.size + 1 - s.pos ≤ d →
+      ∃ s' ps, SkipLoopC g inp ws cm s acc (.ok s' ps) := by
+  intro d
+  induction d with
+  | zero =>
+    intro s acc hd
+    obtain ⟨t1, h1, p1⟩ := hws s
+    cases t1 with
+    | matched s' ps => simp only [] at p1; omega
+    | stop x => exact p1.elim
+    | no =>
+      obtain ⟨t2, h2, p2⟩ := hcm s
+      cases t2 with
+      | matched s' ps => simp only [] at p2; omega
+      | stop x => exact p2.elim
+      | no => exact ⟨s, acc, skipLoopC_intro ⟨_, h1, _, h2, rfl⟩⟩
+  | succ d ih =>
+    intro s acc hd
+    obtain ⟨t1, h1, p1⟩ := hws s
+    cases t1 with
+    | matched s' ps =>
+      simp only [] at p1
+      obtain ⟨s'', ps'', hl⟩ := ih s' (acc ++ ps) (by omega)
+      exact ⟨s'', ps'', skipLoopC_intro ⟨_, h1, hl⟩⟩
+    | stop x => exact p1.elim
+    | no =>
+      obtain ⟨t2, h2, p2⟩ := hcm s
+      cases t2 with
+      | matched s' ps =>
+        simp only [] at p2
+        obtain ⟨s'', ps'', hl⟩ := ih s' (acc ++ ps) (by omega)
+        exact ⟨s'', ps'', skipLoopC_intro ⟨_, h1, _, h2, hl⟩⟩
+      | stop x => exact p2.elim
+      | no => exact ⟨s, acc, skipLoopC_intro ⟨_, h1, _, h2, rfl⟩⟩
+
+/-- **implicit trivia is total** in a grammar without a fused SKIP rule whose WHITESPACE and
+    COMMENT rules always answer and consume input when they match -/
+theorem triviaTotal_of_progress (hf : g.fusedSkip = none)
+    (hws : TryProgress g inp (g.lookup "WHITESPACE")) (hcm : TryProgress g inp (g.lookup "COMMENT")) :
+    TriviaTotal g inp := by
+  intro s
+  by_cases ha : s.atomic = true
+  · exact skipOK_of_atomic ha
+  · by_cases hn : ((g.lookup "WHITESPACE").isNone && (g.lookup "COMMENT").isNone) = true
+    · refine ⟨.ok s [], ⟨0, ?_, by simp⟩, by simp⟩
+      simp [skip, ha, hf, hn]
+    · obtain ⟨s', ps, n, hl, _⟩ := skipLoop_total hws hcm _ s [] (Nat.le_refl _)
+      refine ⟨.ok s' ps, ⟨n, ?_, by simp⟩, by simp⟩
+      simp only [skip, ha, Bool.false_eq_true, ↓reduceIte, hf, hn]
+      exact hl
 
 end L0
 end Pest
